@@ -91,7 +91,51 @@ def run(ctx):
             bad = wf(pb, len(nodes))
             if bad:
                 ctx.fail('oracle', c, impl=b[:500], model=None, expect='well-formed stream', note=f'ill-formed instruction stream ({st}): ' + '; '.join(bad[:4]) + f' — {treesuite.tok_text(c)!r}')
-    ctx.oblige('suite BUILD.instr+meta (implementation = Lean builder model)', 'suite', dis == 0 and drv_ok, f'{dis} disagreement(s)')
+    # the same token lists built after one or two earlier programs (prelude `5 + 5`): implementation vs model, and the
+    # whole object must still be well-formed (python checker + the verified Lean checker wfProg through WFCHK)
+    if not ctx.replay:
+        acc = [c for c in cases if res[c[1]]['parse'].startswith('ok root=')]
+        if ctx.tier == 'quick':
+            acc = acc[::3]
+        prows = []
+        for k, c in enumerate(acc):
+            prows.append(['BUILD', 'p' + c[1], ('simple', 'basic')[k % 2], str(1 + (k // 2) % 2)] + c[2:])
+    else:
+        prows = [c for c in cases if c[0] == 'BUILD']
+    if prows:
+        pi = vlib.run_impl(prows, 'c05pre', per_case_s=5.0)
+        pm = vlib.run_model(prows, 'c05prem') if drv_ok else {}
+        wrows = []
+        for c in prows:
+            a, m = pi.get(c[1], 'missing'), pm.get(c[1])
+            canon = lambda x: 'FUELOUT' if x.split(' ')[0] in ('HANG', 'ABORT') else ('PANIC' if x.startswith('PANIC') else x)
+            if m is not None and canon(a) != canon(m):
+                dis += 1
+                ctx.fail('corr', c, impl=a[:300], model=m[:300], note=f'builder differs from the Lean builder model after {c[3]} earlier program(s) (BUILD suite)')
+            if a.startswith('ok '):
+                stats['accepted-after-earlier'] = stats.get('accepted-after-earlier', 0) + 1
+                ctx.distinct.add((c[2], c[3], '\t'.join(c[4:])))
+                pb = treesuite.parse_build(a)
+                bad = wf(pb, 1 << 30) if pb else ['unreadable dump']
+                if bad:
+                    ctx.fail('oracle', c, impl=a[:500], model=None, expect='well-formed object', note=f'ill-formed object after {c[3]} earlier program(s) ({c[2]}): ' + '; '.join(bad[:4]) + f' — {treesuite.tok_text(c[:2] + c[4:])!r}')
+                wrows.append(['WFCHK', c[1], vlib.esc(a), str(1 << 30)])
+        # n_pre = 0 dumps through the verified checker too
+        for c in cases:
+            b = res[c[1]]['build'].get('simple', '') if c[1] in res else ''
+            if b.startswith('ok ') and res[c[1]]['parse'].startswith('ok root='):
+                wrows.append(['WFCHK', 'z' + c[1], vlib.esc(b), str(len(treesuite.nodes_of(res[c[1]]['parse'])[1]))])
+        if drv_ok and wrows:
+            wr = vlib.run_model(wrows, 'c05wf')
+            nbad = 0
+            for w in wrows:
+                r = wr.get(w[1], 'missing')
+                if r != 'wf=true why=-':
+                    nbad += 1
+                    ctx.fail('oracle', w[:2] + [w[2][:600], w[3]], impl=vlib.unesc(w[2])[:500], model=r, expect='wf=true', note=f'the verified checker wfProg rejects the implementation`s object: {r}')
+            stats['WFCHK'] = len(wrows)
+            stats['WFCHK-rejected'] = nbad
+    ctx.oblige('suite BUILD.instr+meta (implementation = Lean builder model', 'suite', dis == 0 and drv_ok, f'{dis} disagreement(s)')
     ctx.rule = ('all token lists of the C02/C04 corpora that parse; built into both data implementations; for every accepted one the dumped instruction stream (constants rendered through the getters), jump table and metadata are checked: data operands name existing values of the expected kind, '
                 'jump operands and expression values name existing jump entries, every jump entry points at an existing instruction and none is left at the placeholder, the stream ends in EndExpression / JumpTo, one metadata record per instruction naming an existing parse node; plus agreement with the builder model; distinct = distinct (store, accepted token list).')
     ctx.suites = {'PARSE+BUILD': len(cases), 'outcomes': stats}
